@@ -14,7 +14,8 @@ static rc::Gen<Case> case_gen() {
         int n = *range<int>(1, 24);
         auto steps = *rc::gen::resize(n, rc::gen::container<std::vector<Op>>(rc::gen::exec([=] {
             Op o;
-            int k = *range<int>(0, 10);
+            int k = *range<int>(0, 11);
+            if (k == 11) { o.kind = 13; o.a = {*bnd({15, 16, 17, 18, 33}, 1, 40, 3, 1), *pick({0, 1, 7}), *pick({0, 1})}; return o; }
             if (k == 10) { o.kind = 12; o.a = {*bnd({26, 27, 28, 72, 73, 74, 75, 147, 459, 460}, 0, 500, 3, 1), *range<int64_t>(0, 1000), *pick({0, 1, 1})}; return o; }
             if (k == 0) { o.kind = 10; return o; }
             if (k == 1) { o.kind = 11; o.a = {*bnd({0, 1, 999, 1000, 30000, 31000, 61000, 120000}, 0, 120000, 1, 1)}; return o; }
@@ -40,6 +41,7 @@ static Verdict run(const Case &c) {
 int main(int argc, char **argv) {
     Args a = parse_args(argc, argv);
     if (!a.replay.empty()) return replay_case(a, run);
+    zygote_start(run);   // before any code under test runs in this process
     Current::install(a.failing);
     Evidence ev;
     ev.rule = "structured cases: MTU x attribute set x <=24 steps of templated frames (every opcode/ToS, wire counts 0/1/fits/fits+1/0xFFFF/any, "
